@@ -13,8 +13,10 @@ CUTS = {
     'brax.kinematics:link_to_joint_frame': ('uf/verified', 'uf in relational obligations; frame-completion contract via orthogonals in C04 rest / C08'),
     'brax.kinematics:axis_angle_ang': ('uf', 'relational obligations only'),
     'brax.kinematics:inverse': ('true', 'outputs unused by the goals it is cut in (momentum, unit_rot) / term identity in C08 q_is_inverse'),
-    'brax.kinematics:world_to_joint': ('true', 'as above'),
-    'brax.com:inv_inertia': ('true/uf', 'arbitrary inverse inertia; covariance proved in C05'),
+    'brax.kinematics:world_to_joint': ('true/verified', 'as above; in C05 position_update through its covariance contract C05/kinematics.world_to_joint/invariant'),
+    'brax.com:inv_inertia': ('true/uf/verified', 'arbitrary inverse inertia; covariance R I R^T proved in C05/com.../covariant and used in C05 position_update'),
+    'brax.positional.joints:_translation_update': ('verified', 'C05/positional.joints._translation_update/covariant (relational contract, arguments compared)'),
+    'brax.positional.joints:_rotation_update': ('verified', 'C05/positional.joints._rotation_update/covariant (relational contract, arguments compared)'),
     'brax.spring.joints:_one_dof': ('true', 'any joint-frame force'), 'brax.spring.joints:_two_dof': ('true', 'any joint-frame force'), 'brax.spring.joints:_three_dof': ('true', 'any joint-frame force'),
     'brax.positional.joints:_three_dof_joint_update': ('true', 'any joint-frame correction'), 'brax.positional.joints:_sphericalize': ('true', 'any padding'),
     'brax.spring.integrator:integrate': ('verified', 'C06/spring.integrator.integrate/unit'),
